@@ -407,29 +407,88 @@ Proof.
   - intros [p [H E]]. exists (rebuild p). split; [now apply in_map|now rewrite Hk].
 Qed.
 
-(* by("month") / by("year") over the rebuilt transactions = over the merchant's own payments *)
-Theorem by_month_year_own (pm py : Z) (m : merchant) (f : field) :
-  f = FMonth \/ f = FYear -> get_by (ctx_of pm py m) f = get_by (ctx_own pm py m) f.
-Proof.
-  intros Hf. unfold get_by, ctx_of, ctx_own. simpl. rewrite group_by_map.
-  rewrite (group_by_ext (fun p => key_of f (rebuild p)) (key_of f) (fun p => pay_val (rebuild p)) pay_val); [reflexivity| |reflexivity].
-  intros p. destruct Hf; subst f; reflexivity.
-Qed.
+Lemma map_rebuild ps : map rebuild ps = ps.
+Proof. unfold rebuild. apply map_id. Qed.
 
-(* months, total and cv see only year, month and amount of each payment *)
-Theorem months_total_cv_own (pm py : Z) (m : merchant) :
-  get_months (ctx_of pm py m) = get_months (ctx_own pm py m) /\
-  get_total (ctx_of pm py m) = get_total (ctx_own pm py m) /\
-  get_cv (ctx_of pm py m) = get_cv (ctx_own pm py m).
-Proof.
-  unfold get_months, get_total, get_cv, monthly_totals, ctx_of, ctx_own. simpl.
-  rewrite !group_by_map, !map_map. repeat split.
-Qed.
+(* the context a filter is evaluated in IS the merchant's own payments *)
+Theorem ctx_of_own (pm py : Z) (m : merchant) : ctx_of pm py m = ctx_own pm py m.
+Proof. unfold ctx_of, ctx_own. now rewrite map_rebuild. Qed.
 
 (* ---- variables ---------------------------------------------------------------------------- *)
 Lemma lookup_lowercase_var (vars : env) (c : ctx) (n : string) (v : value) :
   lower n = n -> alookup n vars = Some v -> eval vars c (EName n) = Val v.
 Proof. intros L H. simpl. unfold lookup_name. rewrite L, H. reflexivity. Qed.
+
+Lemma lower_char_idem ch : lower_char (lower_char ch) = lower_char ch.
+Proof. destruct ch as [[] [] [] [] [] [] [] []]; vm_compute; reflexivity. Qed.
+Lemma lower_idem s : lower (lower s) = lower s.
+Proof. unfold lower. induction s as [|ch s IH]; simpl; [reflexivity|]. now rewrite lower_char_idem, IH. Qed.
+
+Section DictFacts.
+  Context {A : Type}.
+  Lemma alookup_dset_same (d : list (string * A)) k v : alookup k (dset d k v) = Some v.
+  Proof.
+    induction d as [|[k' v'] r IH]; simpl; [now rewrite String.eqb_refl|].
+    destruct (String.eqb k k') eqn:E; simpl; rewrite E; auto.
+  Qed.
+  Lemma alookup_dset_defined (d : list (string * A)) k v k2 :
+    alookup k2 d <> None -> alookup k2 (dset d k v) <> None.
+  Proof.
+    induction d as [|[k' v'] r IH]; simpl; [congruence|].
+    destruct (String.eqb k k') eqn:E; simpl.
+    - destruct (String.eqb k2 k'); [discriminate|auto].
+    - destruct (String.eqb k2 k'); [discriminate|auto].
+  Qed.
+End DictFacts.
+
+(* every name defined in the file, in whatever letter case, has an entry under its lower-cased name *)
+Lemma norm_defs_defined (raw : defs) n e : In (n, e) raw -> alookup (lower n) (norm_defs raw) <> None.
+Proof.
+  unfold norm_defs. generalize (@nil (string * expr)).
+  assert (K : forall (l : defs) d, alookup (lower n) d <> None ->
+              alookup (lower n) (fold_left (fun d ne => dset d (lower (fst ne)) (snd ne)) l d) <> None).
+  { induction l as [|x l IH]; intros d H; simpl; [exact H|]. apply IH. now apply alookup_dset_defined. }
+  induction raw as [|x raw IH]; intros d H; [contradiction|]. simpl. destruct H as [->|H].
+  - apply K. simpl. rewrite alookup_dset_same. discriminate.
+  - now apply IH.
+Qed.
+
+(* evaluate_variables gives every definition a value (None when its expression fails) *)
+Lemma eval_vars_defined (ds : defs) (c : ctx) k : forall start env,
+  eval_vars ds c start = Val env -> (alookup k ds <> None \/ alookup k start <> None) -> alookup k env <> None.
+Proof.
+  unfold eval_vars. induction ds as [|[n e] ds IH]; intros start env H D; simpl in *.
+  - inversion H; subst. destruct D as [D|D]; [congruence|exact D].
+  - destruct (evaluate start c e) as [v| | |r] eqn:E; simpl in H.
+    + apply (IH _ _ H). destruct (String.eqb k n) eqn:K.
+      * apply String.eqb_eq in K. subst. right. rewrite alookup_dset_same. discriminate.
+      * destruct D as [D|D]; [left; exact D|right; now apply alookup_dset_defined].
+    + apply (IH _ _ H). destruct (String.eqb k n) eqn:K.
+      * apply String.eqb_eq in K. subst. right. rewrite alookup_dset_same. discriminate.
+      * destruct D as [D|D]; [left; exact D|right; now apply alookup_dset_defined].
+    + exfalso. revert H. clear. induction ds as [|x ds IH]; simpl; [discriminate|exact IH].
+    + exfalso. revert H. clear. induction ds as [|x ds IH]; simpl; [discriminate|exact IH].
+Qed.
+
+(* a variable defined in the views file can be read back under any letter case of its name *)
+Theorem variable_reachable (raw : defs) (c : ctx) (start env : env) n e n' :
+  In (n, e) raw -> eval_vars (norm_defs raw) c start = Val env -> lower n' = lower n ->
+  exists v, alookup (lower n) env = Some v /\ evaluate env c (EName n') = Val v.
+Proof.
+  intros HI HE HL.
+  pose proof (eval_vars_defined (norm_defs raw) c (lower n) start env HE (or_introl (norm_defs_defined raw n e HI))) as D.
+  destruct (alookup (lower n) env) as [v|] eqn:A; [|congruence]. exists v. split; [reflexivity|].
+  unfold evaluate. simpl. unfold lookup_name. rewrite HL, A. reflexivity.
+Qed.
+
+Lemma has_dup_false_nodup l : has_dup l = false -> NoDup l.
+Proof.
+  induction l as [|x l IH]; simpl; intros H; [constructor|].
+  apply orb_false_iff in H. destruct H as [H1 H2]. constructor; [|now apply IH].
+  intros X. apply mem_In in X. congruence.
+Qed.
+Lemma parse_ok_nodup cfg : parse_ok cfg = true -> NoDup (map v_name (g_views cfg)).
+Proof. unfold parse_ok. intros H. apply negb_true_iff in H. now apply has_dup_false_nodup. Qed.
 
 (* ---- nothing escapes the modelled evaluator (ExpressionEvaluator.evaluate wraps every Exception) ---- *)
 Lemma evaluate_no_crash vars c e : evaluate vars c e <> Crash.
